@@ -372,8 +372,13 @@ func (o *oidcHandler) retrieveTokens(ctx context.Context, log telemetry.Logger, 
 
 	// Knock 5 seconds off the expiry time to take into account the time it may
 	// have taken to retrieve the token.
-	expiresIn := time.Duration(bodyTokens.ExpiresIn)*time.Second - 5
-	accessTokenExpiration := o.clock.Now().Add(expiresIn)
+	// The expires_in member is optional: when the Identity Provider omits it the expiration is
+	// left unset (unknown), as it is done when refreshing the tokens.
+	var accessTokenExpiration time.Time
+	if bodyTokens.ExpiresIn > 0 {
+		expiresIn := time.Duration(bodyTokens.ExpiresIn)*time.Second - 5
+		accessTokenExpiration = o.clock.Now().Add(expiresIn)
+	}
 
 	log.Debug("saving tokens to session store")
 	if err := store.SetTokenResponse(ctx, sessionID, &oidc.TokenResponse{
